@@ -114,6 +114,8 @@ def run(chk):
         except InvalidSelectorError: return False
         except (stix2.exceptions.STIXError, ValueError) as ex:
             return 'other:' + type(ex).__name__
+        except Exception as ex:      # noqa
+            return 'escape:' + type(ex).__name__
 
     def check(case):
         name, sel, want, v = case
@@ -137,6 +139,8 @@ def run(chk):
             if rname == 'parse' and not syntactically_ok: continue          # syntactically illegal selectors are refused by the property cleaner with another error
             if d['type'] == 'file' and rname not in ('parse', 'get_markings(unmarked object)', 'is_marked(unmarked object)', 'is_marked(unmarked dict)'): continue   # SCOs are not versionable
             got = accepted(fn)
+            if isinstance(got, str) and got.startswith('escape:'):
+                return (f'decide#{rname}:{got[7:]}', f'{name}: deciding selector {sel!r} through {rname} failed with {got[7:]} instead of accepting or refusing it', {'selector': sel})
             if want and got is not True:
                 kind = 'falsy' if (not v and v is not None) else 'truthy'
                 return (f'reject#{rname}:{type(v).__name__}:{kind}', f'{name}: existing path {sel!r} (value {v!r}) rejected by {rname}: {got}', {'selector': sel})
